@@ -17,6 +17,7 @@ import (
 	"fmt"
 	"sort"
 	"strings"
+	"sync/atomic"
 
 	authzenv1 "github.com/openfga/api/proto/authzen/v1"
 	openfgav1 "github.com/openfga/api/proto/openfga/v1"
@@ -27,6 +28,8 @@ import (
 	"github.com/openfga/openfga/internal/verifh/ref"
 	"github.com/openfga/openfga/pkg/storage/memory"
 )
+
+var propSampled atomic.Int32
 
 var params = []string{"x", "subject_x", "resource_x", "action_x"}
 
@@ -622,7 +625,7 @@ func hasFreeCond(ts []ref.Tuple) bool {
 
 // propsSweep: models x condition parameter x tuple subsets |T|<=2 with a request-decided conditioned tuple.
 func propsSweep(r *core.Report, models []*ref.Model, nodes []e2.Node) {
-	const groups = 3
+	const groups = 6
 	type unit struct{ mi, pi, g int }
 	var units []unit
 	for g := 0; g < groups; g++ {
@@ -671,6 +674,10 @@ func propsSweep(r *core.Report, models []*ref.Model, nodes []e2.Node) {
 				return
 			}
 			r.Count("props_worlds/"+param, 1)
+			if param != "x" && len(ts) == 2 && propSampled.Add(1) <= 2 {
+				r.Sample(map[string]any{"pass": "properties", "condition": "cx(" + param + ":int) := " + param + " < 10", "model": m.String(), "tuples": e2.TuplesStr(ts),
+					"example": "ResourceSearch{subject:{type:user,id:a,properties:{x:1}},action:{name:r0,properties:{x:20}},resource:{type:doc}} vs ListObjects(user:a, r0, doc, context{subject_x:1, action_x:20})"})
+			}
 			propsWorld(r, env, w, nodes, param)
 			if err := env.Delete(ts, env.ModelID); err != nil {
 				panic(fmt.Sprintf("delete: %v", err))
